@@ -263,17 +263,24 @@ def native_checks():
             [["=1+2", "mailto:x@example.com"], ["internal:Sheet1!A1", "{=SUM(1,2)}"], ["http://example.com", "ftp://x"]],
             [["äöü€", " lead", "trail "], ["<&>", "'quoted'", '"dq"']],
             [["1", "1.0", "007"], ["TRUE", "2021-03-17", "12:00:00"]],
+            [["x" * 32767, "y" * 32766], ["z" * 1000, "0"]],  # 32767 characters: the longest text a cell can hold
+            [["a", "", ""], ["b", "c", "d"], ["", "", ""], ["e", "", "f"]],
         ]
         for ti, table in enumerate(tables):
             n += 1
             p = os.path.join(d, "rt%d.xlsx" % ti)
-            w = rowio.XlsxRowWriter(p)
-            w.write_rows(table)
-            w.close()
-            got = list(rowio.excel_rows(p, 1))
+            try:
+                w = rowio.XlsxRowWriter(p)
+                w.write_rows(table)
+                w.close()
+                got = list(rowio.excel_rows(p, 1))
+            except Exception as e:  # noqa
+                got = "%s: %s" % (type(e).__name__, str(e)[:200])
             if got != table:
-                failures.append(dict(key="xlsx-writer-round-trip", what="table %r written with XlsxRowWriter reads back as %r" % (table, got),
-                                     args=dict(table=table)))
+                short = [[c if len(c) < 60 else "%s... (%d characters)" % (c[:10], len(c)) for c in r] for r in table]
+                got_short = got if not isinstance(got, list) else [[c if len(c) < 60 else "%s... (%d characters)" % (c[:10], len(c)) for c in r] for r in got]
+                failures.append(dict(key="xlsx-writer-round-trip", what="table %r written with XlsxRowWriter reads back as %r" % (short, got_short),
+                                     args=dict(table=short)))
     finally:
         shutil.rmtree(d)
     return dict(count=n, failures=failures, samples=samples)
